@@ -729,7 +729,11 @@ class Interp:
             left = self.ev(e.left, env)
             for op, c in zip(e.ops, e.comparators):
                 right = self.ev(c, env)
-                if isinstance(op, ast.Eq): r = left == right
+                if isinstance(op, (ast.Eq, ast.NotEq)) and getattr(self, 'struct_eq', None) and isinstance(left, Obj) and isinstance(right, Obj) \
+                        and left.kind in self.struct_eq and right.kind in self.struct_eq:
+                    # nodes of the tree compare by what they print (ASTNode.__eq__), not by identity
+                    r = _struct_eq(left, right) if isinstance(op, ast.Eq) else not _struct_eq(left, right)
+                elif isinstance(op, ast.Eq): r = left == right
                 elif isinstance(op, ast.NotEq): r = left != right
                 elif isinstance(op, ast.Lt): r = left < right
                 elif isinstance(op, ast.LtE): r = left <= right
@@ -1134,6 +1138,24 @@ class Interp:
             o.attrs['_args'] = args
             return o
         raise AnalysisError(f'interpreter: unmodelled call `{ftxt}`')
+
+
+def _struct_eq(a, b, depth=0):
+    """stand-ins of tree nodes are equal when kind and all public attributes are (the rule's own `_` annotations do not count)"""
+    if isinstance(a, Obj) and isinstance(b, Obj):
+        if a.kind != b.kind or depth > 40:
+            return False
+        ka = {k for k in a.attrs if not k.startswith('_')}
+        kb = {k for k in b.attrs if not k.startswith('_')}
+        return ka == kb and all(_struct_eq(a.attrs[k], b.attrs[k], depth + 1) for k in ka)
+    if isinstance(a, (list, tuple)) and isinstance(b, (list, tuple)):
+        return len(a) == len(b) and all(_struct_eq(x, y, depth + 1) for x, y in zip(a, b))
+    if isinstance(a, Obj) or isinstance(b, Obj):
+        return False
+    try:
+        return bool(a == b)
+    except Exception:
+        return a is b
 
 
 class ClassRef:
